@@ -175,6 +175,11 @@ pub struct KeyGen {
     pub horizon_short: i32,
     pub horizon_long: i32,
     pub sweep_after_mut: u8,
+    /// "fill" phase of the scheduler: keep inserting (no clock advance, no query) until
+    /// this many entries are physically stored - aimed at the arena being exactly full,
+    /// one short of full, or just grown (right after start or after a clear)
+    pub fill_target: Option<usize>,
+    pub fill_pct: u64,
 }
 
 const W_INS: usize = 0;
@@ -249,6 +254,8 @@ impl KeyWorld {
             horizon_short: 8,
             horizon_long: 200,
             sweep_after_mut: 0,
+            fill_target: None,
+            fill_pct: 0,
         }
     }
 
@@ -296,13 +303,35 @@ impl KeyWorld {
         g.horizon_long = *r.pick(&[50, 200, 1000, 100000]);
         g.sweep_after_mut = *r.pick(&[0, 0, 0, 1, 2]);
         g.last_key = cfg.key_lo + (r.below(cfg.universe.max(1) as u64) as i32);
+        g.fill_pct = *r.pick(&[0, 0, 25, 50, 100]);
+        if r.below(100) < g.fill_pct / 2 {
+            g.fill_target = Some(Self::draw_fill_target(cfg, r));
+        }
         g.export_at_end = cfg.has(O_KEXPORT) || cfg.has(O_CAP) || ((cfg.has(O_CRASH) || cfg.has(O_TWIN) || cfg.has(O_TORN)) && r.chance(1, 2));
         g
     }
 
-    #[inline]
-    fn live(&self, e: &MEnt, t: i32) -> bool {
-        e.exp > t
+    fn draw_fill_target(cfg: &Cfg, r: &mut Rng) -> usize {
+        // the arena starts with max(hint, 8) slots, one of which is the sentinel
+        let slots = cfg.cap.max(8);
+        let t = match r.below(5) {
+            0 => slots.saturating_sub(2),
+            1 | 2 => slots - 1,
+            3 => slots,
+            _ => 2 * slots,
+        };
+        t.min(40).max(2)
+    }
+
+    /// entries physically stored in the first collection (expired-but-unremoved ones count)
+    fn stored_count(&self) -> usize {
+        match self.colls.first().and_then(|c| c.as_ref()) {
+            Some(c) => match c.snapshot() {
+                Some(s) => s.slots.len().saturating_sub(s.unused.len() + 1),
+                None => c.stored().len(),
+            },
+            None => 0,
+        }
     }
 
     fn exp_pred(&self, model: &BTreeMap<i32, MEnt>, t: i32, bound: i32, inclusive: bool) -> i64 {
@@ -542,7 +571,7 @@ impl KeyWorld {
                         ));
                     }
                     if opkind == "KClear" && s.unused.len() + 1 != s.slots.len() {
-                        return Err(invariant("arena", name, opkind, "clear did not free every slot", format!("after clear {} of {} slots are free", s.unused.len(), s.slots.len() - 1)));
+                        return Err(invariant("arena", name, opkind, "clear did not free every slot", format!("after clear {} of {} slots are free", s.unused.len(), s.slots.len().saturating_sub(1))));
                     }
                     ctx.stats.oracle_evals += 1;
                 }
@@ -644,7 +673,7 @@ impl KeyWorld {
                     twin_answer = Some(v2);
                 }
             }
-            let before_n = if ctx.collect_shapes { self.colls[ci].as_ref().unwrap().snapshot().map(|s| s.slots.len() - s.unused.len() - 1) } else { None };
+            let before_n = if ctx.collect_shapes { self.colls[ci].as_ref().unwrap().snapshot().map(|s| s.slots.len().saturating_sub(s.unused.len() + 1)) } else { None };
             let pid = self.fresh_id();
             let probe = SimKey { key: qk, exp: pexp, id: pid };
             let panic_at = step.panic_at;
@@ -683,7 +712,7 @@ impl KeyWorld {
             }
             if let Some(b) = before_n {
                 if let Some(s) = self.colls[ci].as_ref().unwrap().snapshot() {
-                    let after = s.slots.len() - s.unused.len() - 1;
+                    let after = s.slots.len().saturating_sub(s.unused.len() + 1);
                     match b.saturating_sub(after) {
                         0 => ctx.stats.bump("query.lazy_removed_0"),
                         1 => ctx.stats.bump("query.lazy_removed_1"),
@@ -1216,6 +1245,23 @@ impl World for KeyWorld {
                 return op;
             }
         }
+        if let Some(target) = self.gen.fill_target {
+            if self.stored_count() < target && (self.cfg.universe as usize) > target + 1 {
+                for _ in 0..12 {
+                    let k = self.pick_key(r);
+                    let mut exp = self.pick_exp(r);
+                    if exp == self.now && r.chance(1, 2) {
+                        exp = self.now.saturating_add(1);
+                    }
+                    let op = Op::KIns { k, exp };
+                    if self.legal(&op) {
+                        self.schedule_events(k, exp);
+                        return op;
+                    }
+                }
+            }
+            self.gen.fill_target = None;
+        }
         for _ in 0..8 {
             let which = r.weighted(&self.gen.w.clone());
             match which {
@@ -1281,6 +1327,9 @@ impl World for KeyWorld {
                 W_CLEAR => {
                     let restart = if r.chance(1, 2) && self.now > 0 { r.range(0, self.now as i64 - 1) as i32 } else { -1 };
                     self.gen.events.clear();
+                    if r.below(100) < self.gen.fill_pct {
+                        self.gen.fill_target = Some(Self::draw_fill_target(&self.cfg, r));
+                    }
                     return Op::KClear { restart };
                 }
                 _ => {}
